@@ -58,6 +58,14 @@ int windex() { return a[g++ % 3]; }
 int wargument() { return rval2(g++); }
 int wcond() { return (g++ > 0) ? 1 : 2; }
 int wcallarg() { return rval2(w0()); }
+int wlhs_index() { int t[3]; t[g++ % 3] = 1; return 1; }
+int wlhs_index_assign() { int t[3]; t[(g = 1)] += 1; return 1; }
+int wlhs_index_call() { int t[3]; t[w0()] = 1; return t[0]; }
+int wlhs_index_incr() { int t[3]; t[g++ % 3]++; return 1; }
+int wlhs_cond() { int l; int l2; ((g++ > 0) ? l : l2) = 1; return 1; }
+int wshadow_param(int g) { w0(); return g; }
+int wshadow_local() { int g; g = 2; return w0() + g; }
+int rshadow_param(int g) { g = 3; return g; }
 void setarr(int &r[3]) { r[0] = 1; }
 int wrefarr() { setarr(a); return 1; }
 void setS(S &r) { r.f = 1; }
@@ -65,6 +73,7 @@ int wrefstruct() { setS(s); return 1; }
 int rcl_local() { int l; int l2; (h > 0 ? l : l2) = 1; return l; }
 int rlocalarr() { int l[3]; setarr(l); return l[0]; }
 void setref(int &r) { r = 1; }
+int wshadow_ref(int h) { setref(g); return h; }
 int wcl_ref() { int l; setref(h > 0 ? l : g); return 1; }
 int wref() { setref(g); return 1; }
 void fwd(int &r) { setref(r); }
@@ -83,10 +92,11 @@ WRITER_CALLS = ["w0()", "w1()", "w2()", "w3()", "w4()", "wplus()", "winc()", "wd
                 "wblock()", "wret()", "wiif()", "wcomma()", "wref()", "wfwd()", "refarg(g)", "refarg(a[0])", "refarg(s.f)",
                 "wdo_cond()", "wdo_cond_call()", "wwhile_cond_call()", "welseif()", "wnested_loops()", "wcl_else()", "wcl_then()",
                 "wcl_inc()", "wcl_plus()", "wcl_arr()", "wcl_ref()", "windex()", "wargument()", "wcond()", "wcallarg()", "wrefarr()",
-                "wrefstruct()", "refarg(h > 0 ? h : g)"]
+                "wrefstruct()", "refarg(h > 0 ? h : g)", "wlhs_index()", "wlhs_index_assign()", "wlhs_index_call()", "wlhs_index_incr()",
+                "wlhs_cond()", "wshadow_param(1)", "wshadow_local()", "wshadow_ref(2)"]
 DIRECT_WRITES = ["(g = 1)", "(g := 1)", "(g += 1)", "(g -= 1)", "(g *= 2)", "(g /= 2)", "(g %= 2)", "(g |= 1)", "(g &= 1)", "(g ^= 1)",
                  "(g <<= 1)", "(g >>= 1)", "g++", "g--", "++g", "--g", "(a[0] = 1)", "a[1]++", "(s.f = 2)", "++s.k", "(h = g = 1)"]
-READ_TWINS = ["rcl_local()", "rlocalarr()", "g", "rf()", "rlocal()", "rval(3)", "rcref(g)", "rchain()", "a[0]", "s.f", "g + h"]
+READ_TWINS = ["rshadow_param(2)", "rcl_local()", "rlocalarr()", "g", "rf()", "rlocal()", "rval(3)", "rcref(g)", "rchain()", "a[0]", "s.f", "g + h"]
 CONST_TWINS = ["N", "pure()", "plocal()", "N + 1", "rval(N)"]
 # the write form nested inside a larger expression of the context
 WRAPPERS = ["%s", "N + %s", "(%s) * 2", "pure() + %s", "(N > 1 ? %s : 1)", "abs(%s)", "rval(%s)", "(%s <? 7)", "-(%s)"]
